@@ -8,6 +8,8 @@
  *   verify                                                                   esl_opt_VerifyConfig
  *   dump                                                                     every query call + g->valloc[]
  *   reuse                                                                    esl_getopts_Reuse
+ *   help grp=N indent=N width=N                                              esl_opt_DisplayHelp into a memory stream (opt rows may carry help=H|~ grp=N)
+ *   spoofcmd                                                                 esl_opt_SpoofCmdline
  * H = lowercase hex, "-" = empty string, "~" = NULL.
  */
 #include "hcommon.h"
@@ -99,14 +101,19 @@ static void do_dump(void)
   APP(" a0=%s%s", esl_opt_GetArg(G, 0) ? "x" : "~", esl_opt_GetArg(G, -1) ? "x" : "~");   /* no argument 0 or -1 */
   APP(" opts=");
   for (i = 0; i < nT; i++) {
-    char *nm = T[i].name; char typed[96];
+    char *nm = T[i].name; char typed[96]; int j;
     int on = esl_opt_IsOn(G, nm);
-    switch (T[i].type) {
+    /* the query calls go by name: with duplicate names (ill-formed table) they all answer for the first option of that
+     * name, and a typed getter called on an option of another type is a fatal coding error — so ask by ITS type */
+    for (j = 0; j < i; j++) if (strcmp(T[j].name, nm) == 0) break;
+    switch (T[j].type) {
     case eslARG_NONE: sprintf(typed, "b%d", esl_opt_GetBoolean(G, nm) ? 1 : 0); break;
     case eslARG_INT:  if (on) sprintf(typed, "i%d", esl_opt_GetInteger(G, nm)); else strcpy(typed, "i~"); break;
     case eslARG_REAL: if (on) { typed[0] = 'x'; real_canon(esl_opt_GetReal(G, nm), typed + 1); } else strcpy(typed, "x~"); break;
     case eslARG_CHAR: if (on) sprintf(typed, "c%d", (int)(unsigned char) esl_opt_GetChar(G, nm)); else strcpy(typed, "c~"); break;
-    default:          { char *s = esl_opt_GetString(G, nm); snprintf(typed, sizeof(typed), "s%d", s ? (int) strlen(s) : -1); } break;
+    case eslARG_STRING: case eslARG_INFILE: case eslARG_OUTFILE:
+                      { char *s = esl_opt_GetString(G, nm); snprintf(typed, sizeof(typed), "s%d", s ? (int) strlen(s) : -1); } break;
+    default:          strcpy(typed, "t?"); break;     /* unknown type code (ill-formed table): no getter applies */
     }
     /* a boolean's stored value is an internal marker (default string or (char*)TRUE): only on/off is observable */
     APP("%s%s/%d/%d%d%d/%s", i ? ";" : "", T[i].type == eslARG_NONE ? (G->val[i] ? "1" : "~") : valrepr(G->val[i]), esl_opt_GetSetter(G, nm),
@@ -132,8 +139,8 @@ static void h_op(void)
     T[nT].toggle_opts   = field("tog");
     T[nT].required_opts = field("req");
     T[nT].incompat_opts = field("inc");
-    T[nT].help          = "help";
-    T[nT].docgrouptag   = 0;
+    T[nT].help          = h_arg("help") ? field("help") : "help";
+    T[nT].docgrouptag   = (int) h_argi("grp", 0);
     nT++;
     h_out("ok");
     return;
@@ -176,6 +183,17 @@ static void h_op(void)
   } else if (!strcmp(op, "reuse")) {
     { int st; strcpy(G->errbuf, "stale message"); st = esl_getopts_Reuse(G);      /* Reuse must also clear an old message */
       h_out("%s%s", h_status(st), G->errbuf[0] ? "-errbuf-not-empty" : ""); }
+  } else if (!strcmp(op, "help")) {
+    char *mem = NULL; size_t msz = 0; FILE *fp = open_memstream(&mem, &msz); int st;
+    if (!fp) { h_out("io-error"); return; }
+    st = esl_opt_DisplayHelp(fp, G, (int) h_argi("grp", 0), (int) h_argi("indent", 0), (int) h_argi("width", 80));
+    fclose(fp);
+    h_out("%s %s", h_status(st), msz ? h_hex(mem, (int64_t) msz) : "-");
+    free(mem);
+  } else if (!strcmp(op, "spoofcmd")) {
+    char *cl = NULL; int st = esl_opt_SpoofCmdline(G, &cl);
+    h_out("%s %s", h_status(st), cl ? (cl[0] ? h_hex(cl, (int64_t) strlen(cl)) : "-") : "~");
+    free(cl);
   } else if (!strcmp(op, "dump")) {
     do_dump();
   } else h_out("bad-op");
